@@ -30,11 +30,15 @@ from icontract._globals import CallableT
 # pylint: disable=unsubscriptable-object
 
 
+_METHOD_WRAPPER_TYPE = type(object().__str__)
+
+
 def _representable(value: Any) -> bool:
     """
     Check whether we want to represent the value in the error message on contract breach.
 
-    We do not want to represent classes, methods, modules and functions.
+    We do not want to represent classes, methods, modules and functions (including the methods and the functions
+    which are not written in Python such as ``x.__len__`` or ``str.upper``).
 
     :param value: value related to an AST node
     :return: True if we want to represent it in the violation error
@@ -45,6 +49,8 @@ def _representable(value: Any) -> bool:
         and not inspect.ismethod(value)
         and not inspect.ismodule(value)
         and not inspect.isbuiltin(value)
+        and not inspect.isroutine(value)
+        and not isinstance(value, _METHOD_WRAPPER_TYPE)
     )
 
 
